@@ -79,7 +79,8 @@ Fixpoint any_event (p : list N -> change -> bool) (d : docs) (h : list event) : 
 Definition has_zero_insert (h : list event) : bool := any_event is_zero_insert [] h.
 Definition has_crlf_past (h : list event) : bool := any_event is_crlf_past [] h.
 
+(* class 2 (crlf_past_eol) was repaired in /repo and is not a class any more *)
 Definition known (c : case) : N :=
-  if has_zero_insert (hist c) then 1 else if has_crlf_past (hist c) then 2 else 0.
+  if has_zero_insert (hist c) then 1 else 0.
 
 Definition judge_all := judge_with tie_ok oracle_ok known.
